@@ -18,7 +18,7 @@ try:
         if a.returncode != 0:
             results[sid] = "patch-does-not-apply"; continue
         t0 = time.time()
-        env = dict(os.environ, YPV_REPO=wt)
+        env = dict(os.environ, YPV_REPO=wt, YPV_EVIDENCE_DIR=os.path.join(V, "out", "seeded_evidence"))
         p = subprocess.run([os.path.join(V, "check"), pid, "--no-build"], env=env, cwd=V, stdout=subprocess.PIPE, stderr=subprocess.STDOUT, text=True)
         lines = [l for l in p.stdout.split("\n") if l.startswith("VIOLATION") or l.startswith("  failing input")]
         results[sid] = {"exit": p.returncode, "caught": p.returncode == 1, "concrete_input": p.returncode == 1 and "no-failing-input-found" not in p.stdout,
